@@ -290,6 +290,26 @@ def run(chk, ctx):
         if okk is not None:
             chk.ob('C04.T', cons, okk, why,
                    site='pamqp/encode.py::field_table')
+    # which Python type gets which tag (the reference encoder's dispatch)
+    vfi, vP, varms, _vrej, _vit = tables.value_arms(ctx)
+    vsite = '%s:%d' % (vfi.module.relpath, vfi.node.lineno)
+    for pytype, tag in spec.tables['encoder_arms']:
+        arm = tables.first_accepting(varms, vP, pytype)
+        if arm is None:
+            chk.ob('C04.X', 'tag of %s values' % pytype, False,
+                   'no arm accepts this type', site=vsite)
+            continue
+        if tag == 'ladder':
+            okk = arm.tag == b'' and \
+                arm.callee == 'encode.table_integer' and arm.operand is vP
+        else:
+            okk = arm.tag == tag.encode('latin-1') and \
+                (arm.operand is vP or arm.callee == '')
+        chk.ob('C04.X', 'tag of %s values' % pytype, okk,
+               'first accepting test %r -> tag %r via %s' % (
+                   sorted(tables.arm_test(arm, vP)), arm.tag,
+                   arm.callee or 'no payload'),
+               detail={'reference_tag': tag}, site=vsite)
     tables.check_tag_encoders(chk, ctx, 'C04.X')
     # which tag an integer gets is part of the bytes: the reference encoder
     # takes the first fitting type of the documented order
